@@ -39,6 +39,7 @@ type Interp struct {
 	consts map[*ssa.Const]Value
 	natives map[*Obj]any
 	onces   map[*Obj]bool
+	pools   map[*Obj][]Value
 	syncMaps map[*Obj]*syncMapModel
 	memoResults map[string]Value
 	MonitorMode int // 1: value-changing writes (C05); 2: any write (C06)
@@ -477,6 +478,11 @@ func (in *Interp) callMemo(fn *ssa.Function, args []Value) (Value, bool) {
 		t.Fuel = in.Fuel
 		t.Steps = 0
 		res = t.callFunctionBody(fn, args)
+		if len(t.memoResults) >= 1024 {
+			// bounded: the exploration order keeps one program's entries together, so
+			// dropping everything now and then costs a few recomputations only
+			t.memoResults = map[string]Value{}
+		}
 		t.memoResults[key] = res
 		in.Steps += t.Steps
 		for f, n := range t.Funcs {
